@@ -451,4 +451,20 @@ Section Accept.
     exists signer. destruct (find_by_addr_in _ _ _ Fd) as [_ Sa]. repeat split; auto.
     unfold find_by_addr in Fd. eapply find_app_first; [exact Fd|exact HA].
   Qed.
+
+  (* every joining entry a node stores when it accepts a proposal packet is validly self-signed for
+     the stored scheme (validate_joiner_signatures is a forall over the whole list) *)
+  Lemma accepted_joiners_self_signed : forall now s p s' o t,
+    packet_step joiner_ok key_ok vm me B now s p = (s', o) -> s' <> s -> gp_body p = PProposal t ->
+    exists next, current s' = Some next
+      /\ (forall j, In j (st_joining next) -> joiner_ok (st_scheme next) j = true)
+      /\ (forall j, In j (t_joining t) -> joiner_ok (t_scheme t) j = true).
+  Proof.
+    intros now s p s' o t H N Hb.
+    destruct (packet_accept_inv _ _ _ _ _ H N) as (md & next & Hmd & HB & A & V & C & F).
+    rewrite Hb in A. simpl in A. destruct (proposed_inv _ _ _ _ _ A) as [VP ->].
+    pose proof (validate_proposal_joiners _ _ _ VP) as J. rewrite forallb_forall in J.
+    eexists; split; [eassumption|]. split; auto.
+    simpl. intros j Hj. apply filter_In in Hj. destruct Hj as [Hj _]. auto.
+  Qed.
 End Accept.
